@@ -119,6 +119,30 @@ CHECKS.update({
     ),
 })
 
+CHECKS.update({
+    "C01": (
+        "generated forms x option sets; oracle = interpreter value of original (physical frame) x own scale factor vs preprocessed integrands (reference frame) per subdomain",
+        "Hypothesis-generated forms (1-3 integrals over dx/ds/dS, subdomain ids, metadata, 0-2 arguments, element zoo incl. "
+        "all Piola kinds and heterogeneous symmetric elements, integrands multilinear by construction with factors from the "
+        "full grammar, explicit Jacobian products) with one drawn option set of compute_form_data each; on random affine "
+        "cells / facets / facet pairs (incl. immersed manifolds) the sum of preprocessed integrands per subdomain must "
+        "equal scale x sum of the applicable original integrands, the scale computed from the vertices.",
+        "Trusts the reference interpreter, the push-forward table and reference-cell tables of DESIGN 7; exceptions of "
+        "compute_form_data satisfy the statement and are counted (floor on processed cases).",
+        "4/C01",
+    ),
+    "C09": (
+        "generated index-notation products with re-used index objects and power towers + pipeline integrands; oracle = value/free indices before vs after each cancellation pass in a consistent free valuation",
+        "Hypothesis-generated products of J, K, Identity, indexed coefficients and scalar power towers over a small pool of "
+        "Index objects (nested sums, free/bound re-use, fixed indices) on flat and immersed cells, plus the integrands "
+        "that reach cancel_jacobian_products inside compute_form_data for generated forms; JacobianCanceller, "
+        "IdentityEliminator, ReciprocalCanceller and their composition must keep shape, free indices and value with "
+        "K = pinv(J) and detJ of either sign.",
+        "Trusts the interpreter; cases whose original value is non-finite are discarded.",
+        "4/C09",
+    ),
+})
+
 NOT_YET = {}
 
 
